@@ -33,6 +33,11 @@ def hostileMarkers : List String := ["<zq1>", "</textarea><zq2", "\"zq3onload=",
 def sensitiveStmt : String :=
   "A[role=x](actor) A,p(certified) D(must) I((review [AND] (audit [AND] inspect))) Bdir(report <zq1>) Cac{A(b) I(c)} Cex(soon)"
 
+/-- a statement whose tree the exporters touch while printing (a private nested property next to
+    a private simple one): a conversion that re-used a parsed tree would show it -/
+def sensitiveStmt2 : String :=
+  "A(officer) D(must) I(inspect) Bdir1,p(organic) Bdir1(farm) Bdir1,p{A(farmer) I(registered) Bdir(operation)}"
+
 def stmtPool : Array String := #[sensitiveStmt, sensitiveStmt, sensitiveStmt, sensitiveStmt, sensitiveStmt, sensitiveStmt,
   "A(actor) D(must) I((review [AND] (audit [OR] inspect))) Bdir(report)",
   "A(actor) I(act) Cac{A(b) I(c)}",
@@ -181,6 +186,10 @@ def coverReqs : List Req :=
     mkReq .vis sensitiveStmt ["actCondTop", "propertyTree", "igExtended", "dynamicSchema"],
     mkReq .vis sensitiveStmt ["dov", "annotations", "propertyTree", "binaryTree", "actCondTop"],
     mkReq .vis "no components here" ["dov"],
+    mkReq .vis sensitiveStmt2 [],
+    mkReq .vis sensitiveStmt2 ["propertyTree"],
+    mkReq .tab sensitiveStmt2 ["igExtended"],
+    mkReq .tab sensitiveStmt2 [],
     { page := .tab, method := .GET, form := [("codedStmt", sensitiveStmt), ("execute", "1"), ("igExtended", "t"), ("annotations", "1")] },
     { page := .vis, method := .GET, form := [("codedStmt", sensitiveStmt), ("execute", "true"), ("dov", "t"), ("propertyTree", "f")] } ]
 
